@@ -2,12 +2,51 @@
 import drivers.c04  # noqa: F401   (registers the drivers)
 
 PROP = "C04"
-LEVEL = "exploration"
-LEVEL_TEXT = "..."
-LEVEL_NOTE = "..."
+LEVEL = "exploration"          # until the E1 (SMT) part is added by the main session; do not claim more
+LEVEL_TEXT = ("Bounded run-time contracts: every rewrite the property names (canonize_between / canonize_around, "
+              "gauge_all_* and gauge_local, insert_gauge, balance_bonds, equalize_norms / strip_exponent / "
+              "distribute_exponent, fuse_multibonds, squeeze, compress_* without truncation, the external-gauge "
+              "workflow, rank / diagonal / antidiag / column / split / pair / loop / full simplify, hyperinds_resolve, "
+              "compress_simplify) is applied alone and in random compositions to thousands of small tree, loopy, hyper "
+              "and zero-structured networks; each step must leave the dense tensor over the same outer labels unchanged "
+              "(reference: numpy bucket elimination over the raw arrays times 10**exponent) and deliver the form it "
+              "promises. Nothing is proved.")
+LEVEL_NOTE = ("Trusted: numpy.einsum per elimination step, numpy.linalg for the isometry defect; reading .data / .inds / "
+              ".tags / .left_inds / .exponent of the result. Tolerances relative to the sum of |terms| (at least 1% of the "
+              "product of the tensor norms): 1e-8 (1e-6 for iterative / inverse-based gauges) double, 1e-3 (5e-3) single.")
 TECHNIQUE = "run-time contracts on the real functions vs independent numpy references over a stated bounded domain (bounded stand-in)"
-E1 = []
+E1 = []                        # filled later by the main session
 PROVIDERS = []
-TRUSTED = ["numpy.einsum reference computations"]
-ASSUMPTIONS = []
-EXPLANATION = "..."
+TRUSTED = [
+    "numpy.einsum (sublist form, one bucket per eliminated label) on the raw arrays and labels is the denotation of a "
+    "network; numpy dense linear algebra for isometry defects and norms",
+    "quimb is only used to construct inputs (Tensor(data, inds, tags, left_inds), TensorNetwork, exponent attribute) and "
+    "to read .data / .inds / .tags / .left_inds / .exponent / .tensor_map of results",
+]
+ASSUMPTIONS = [
+    "domain: <= 6 tensors (thorough 8) of rank <= 5, label dimensions {1,2,3}; gauging rewrites on plain networks (every "
+    "label on one or two tensors, outputs = labels occurring once); simplification passes also on hyper networks (label "
+    "multiplicity <= 4) with explicit output_inds (outputs that are bonds / hyper labels, dangling labels summed) and on "
+    "networks holding a tensor with a repeated label (as diagonal_reduce leaves them)",
+    "compression is only called without truncation: cutoff=0.0 and max_bond None or >= the bond",
+    "insert_gauge with gauges of condition number <= 4; gauge_all_random(unitary=False) and belief-propagation gauging in "
+    "double precision only (inverse gauges / inverse square roots of numerically zero message spectra are ill "
+    "conditioned in single precision)",
+    "networks that are identically zero (all terms vanish structurally) are not given to rewrites that divide by a norm "
+    "(gauge_all_simple, compress_all_simple, BP gauging, gauge_local, external gauges, equalize_norms inside passes); "
+    "equalize_norms / strip_exponent on a zero tensor are called with the documented check_zero=True",
+    "each step is judged against the network it received (dense before == dense after), so one defective rewrite does "
+    "not propagate into the verdict of the next; a sequence stops at the first violated step",
+    "canonical-region check only on trees with unlimited distance, absorb='right' and a connected region; bond-size "
+    "check per pair of tensors for the rewrites that keep the tensors",
+    "each chunk runs in a daemonic worker: cotengra.parallel._IS_WORKER = True (no nested process pools)",
+]
+EXPLANATION = (
+    "E3 (bounded): three drivers composing rewrites in random orders. gauging-compositions: tree / loopy / multibond / "
+    "disconnected plain networks under canonize / gauge / balance / equalize / fuse / squeeze / untruncated compress. "
+    "simplification-compositions: structured (diagonal, antidiagonal, COPY, column, rank-one, identity) and hyper "
+    "networks under every simplification pass, hyperinds_resolve and compress_simplify, interleaved with the gauging "
+    "rewrites whenever the current network is plain. external-gauges: the simple-update gauge dictionary workflow. "
+    "Post-conditions: same dense tensor over the same outer labels, consistent label sizes, tensors flagged with "
+    "left_inds are isometries, canonical region, bonds not larger, equal norms, no multibonds / size-1 / hyper labels "
+    "left where promised, receiver untouched by non-in-place calls.")
